@@ -228,7 +228,7 @@ func Materialise(g0 Graph, spec SrcSpec) (*Source, error) {
 			if rng.Intn(2) == 0 {
 				src.Renumber[n] = nd.Twin + genBase // generation 1 never existed
 			} else {
-				src.Renumber[n] = nd.Twin            // the stale generation 0 of a number that was
+				src.Renumber[n] = nd.Twin                 // the stale generation 0 of a number that was
 				src.Renumber[nd.Twin] = nd.Twin + genBase // freed and is in use again with generation 1
 			}
 		}
